@@ -82,9 +82,17 @@ def build_templates(seed, n_rand, n_pert_each):
                 for use in ("print(%s)", "y := %s\n    print(1)"):
                     body = "g :: fn x do\n    " + (use % expr) + "\nend\nstart :: fn do\n    g(%s)\n    g(%s)\nend\n" % ("?a" if e_ok == "2" else "(?a, 1)", bad)
                     base.append({"name": "generic_%s_%s_%s_%d" % ({"<": "lt", ">": "gt", "<=": "le", ">=": "ge", "+": "add", "-": "sub", "*": "mul"}[op], side, bad.strip('"(), ').replace(", ", ""), use.startswith("y")), "role": "operator constraint on an un-annotated parameter (%s, %s)" % (op, side), "dom": {"a": (0, 3)}, "text": body})
+    # holes of the generic-function instantiation (constraints or type variables that are not carried by the copied signature)
+    base.append({"name": "generic_local_tuple_constraint", "no_perturb": True, "role": "generic function: constraint on a local tuple", "dom": {"a": (0, 3)},
+                 "text": "f :: fn x do\n    y :: (x, 1) - (2, 2)\n    print(1)\nend\nstart :: fn do\n    f(?a)\n    f(\"s\")\nend\n"})
+    base.append({"name": "polymorphic_mutable_function_variable", "no_perturb": True, "role": "mutable variable holding a polymorphic function re-assigned to a monomorphic one", "dom": {"a": (0, 3)},
+                 "text": "g :: fn x: int -> int do\n    x + 1\nend\nstart :: fn do\n    f := fn x: *A -> *A do\n        x\n    end\n    print(f(?a))\n    f = g\n    print(f(\"abc\"))\nend\n"})
+    base.append({"name": "closure_returning_captured_parameter", "no_perturb": True, "role": "closure over a generic parameter read at two types", "dom": {"a": (0, 3)},
+                 "text": "f :: fn x do\n    g :: fn -> x end\n    a : int : g()\n    b : str : g()\n    print(a + 1)\n    print(b + \"s\")\nend\nstart :: fn do\n    f(?a)\nend\n"})
     for t in base:
         t = dict(t); t["name"] = "base_" + t["name"]; out.append(t)
     for t in base:
+        if t.get("no_perturb"): continue          # templates that already show a recorded finding: their perturbations would only restate it
         try: prog = SP.strip_parens(SP.parse_program(t["text"]))
         except SP.Outside: continue
         for i, (text, desc) in enumerate(perturb.perturbations(prog, rnd, n_pert_each)):
